@@ -33,6 +33,9 @@ func (SMEnabled) Name() string {
 type UnAckQueue struct {
 	Uslice []*UnAckedStz
 	sync.RWMutex
+	// Sequence number of the last element pushed. Numbering goes on after the queue has been
+	// emptied: the number of an element is its rank among all the stanzas sent on the session.
+	lastId int
 }
 type UnAckedStz struct {
 	Id  int
@@ -108,8 +111,8 @@ func (uaq *UnAckQueue) Push(s Queueable) error {
 	if uaq == nil {
 		return nil
 	}
-	pushIdx := 1
-	if len(uaq.Uslice) != 0 {
+	pushIdx := uaq.lastId + 1
+	if len(uaq.Uslice) != 0 && uaq.Uslice[len(uaq.Uslice)-1].Id >= pushIdx {
 		pushIdx = uaq.Uslice[len(uaq.Uslice)-1].Id + 1
 	}
 
@@ -124,6 +127,7 @@ func (uaq *UnAckQueue) Push(s Queueable) error {
 	}
 
 	uaq.Uslice = append(uaq.Uslice, &e)
+	uaq.lastId = pushIdx
 
 	return nil
 }
